@@ -57,8 +57,9 @@ Proof. exact over_limit_never_complete. Qed.
 Print Assumptions C06_over_limit_never_complete.
 
 (* the frame whose header crosses the limit is refused before its payload is read (only the
-   header is consumed), with a 1009 close; a running sum >= 2^63 is refused the same way but
-   without a close frame; lengths with the top bit set are refused after the 10 header bytes *)
+   header is consumed), with a 1009 close; a running sum >= 2^63 is refused the same way,
+   1009 close included; lengths with the top bit set are refused after the 10 header bytes,
+   again with the 1009 close (unless a close frame went out before) *)
 Theorem C06_crossing_frame_refused_before_payload :
   forall L k c s f rest,
     rinvL L k s -> wf_frame f -> frame_acc (server c) (negb (rfin s)) f = true ->
@@ -72,7 +73,7 @@ Theorem C06_crossing_frame_refused_before_payload :
      exists s', advance_frame c s = (AErr RReadLimit, s') /\ wlog s' = wlog s ++ [WCloseTooBig] /\
        closesent s' = true /\ pending (br s') = wire_payload f ++ rest /\ rlen s' = rl /\ rem s' = plen f) /\
     (2^63 <= rl ->
-     exists s', advance_frame c s = (AErr RReadLimit, s') /\ wlog s' = wlog s /\ closesent s' = false /\
+     exists s', advance_frame c s = (AErr RReadLimit, s') /\ wlog s' = wlog s ++ [WCloseTooBig] /\ closesent s' = true /\
        pending (br s') = wire_payload f ++ rest /\ rem s' = plen f).
 Proof. exact data_frame_step_limit. Qed.
 Print Assumptions C06_crossing_frame_refused_before_payload.
@@ -82,8 +83,9 @@ Theorem C06_top_bit_length_refused :
     binv (br s) -> (8 <= bsize (br s))%nat -> rem s = 0 ->
     pending (br s) = b0 :: b1 :: be_enc 8 len ++ rest ->
     N.land b1 127 = 127 -> 2^63 <= len -> len < 2^64 -> hdr_reject c (rfin s) b0 b1 = false ->
-    exists s', advance_frame c s = (AErr RReadLimit, s') /\ wlog s' = wlog s /\
-      closesent s' = closesent s /\ hlog s' = hlog s /\ pending (br s') = rest /\ binv (br s').
+    exists s', advance_frame c s = (AErr RReadLimit, s') /\
+      wlog s' = (if closesent s then wlog s else wlog s ++ [WCloseTooBig]) /\
+      closesent s' = true /\ hlog s' = hlog s /\ pending (br s') = rest /\ binv (br s').
 Proof. exact top_bit_length_refused. Qed.
 Print Assumptions C06_top_bit_length_refused.
 
